@@ -14,7 +14,8 @@
    generated variable the generator's scope maps it to, or in opt_data).
    Of the STATEMENT stages print / if / let / switch / foreach / for-range / css and call (all forms: data, value and
    content parameters) are proved (below), and the template wrapper with a theorem for every template of a program built
-   from these stages; msg and the file level are NOT: they are covered by translation validation only
+   from these stages, and messages without plural rendered without a bundle; plural, messages from a bundle and the file level
+   are NOT: they are covered by translation validation only
    (go/cmd/soyverif/c04.go: every generated program is translated by the real
    soyjs.Write, run by node with soyutils.js and compared with the Go render).
    Stages kept for the record:
@@ -44,7 +45,8 @@
                                   FILE level (visitSoyFile: namespace declarations, the chain of counters from one template
                                   to the next, the imports) and the reading of the emitted text as that function table by a
                                   JavaScript engine are not part of it
-     gen_correct_partial_msg    : msg / plural with a bundle     -- not proved
+     gen_correct_partial_msg    : {msg}..{/msg} without plural and without a bundle (raw text, print and call placeholders) -- proved
+                                  below (same step); plural, and messages rendered from a translation bundle -- not proved
    MiniJS idealises JavaScript: numbers are integers (a result beyond 2^53 is
    OutOfModel), objects have no prototype chain, the operators are defined on
    the operand kinds of the subset only. *)
@@ -507,8 +509,20 @@ Theorem C04_gen_correct_partial_call : forall cf o cc lv st je jst name d ps fue
 Proof. exact gen_correct_partial_call. Qed.
 Print Assumptions C04_gen_correct_partial_call.
 
+(* {msg desc=".."}text{$x}{call ..}..{/msg} without plural, rendered WITHOUT a translation bundle (soyhtml walkMsgBody; the
+   generator with o_msgs o = None: part of callctx_ok): raw text and placeholders (print, call: msg_ok) are walked in the
+   scope of the message on both sides; the JavaScript is the statements of the children one after the other.  Messages with
+   {plural}, and messages rendered from a bundle (soyhtml evalMsg, soyjs evalMsgParts), are NOT proved. *)
+Theorem C04_gen_correct_partial_msg : forall cf o cc lv st je jst body fuel text env' old,
+  c_oblig cf = [] -> callctx_ok cf o cc -> (cc_fuel cc + sdepth (SMsg body) < fuel)%nat -> sim cf cc st je jst old ->
+  swf lv (SMsg body) = true -> lvok lv (j_scope jst) ->
+  sout (c_ij cf) (mode st) go_print_text (cc_denv cc) (cc_callee cc) (sc_lookup (ctx st)) (SMsg body) = Some (text, env') ->
+  sim_step cf o cc lv st je jst (SMsg body) fuel text env' old.
+Proof. exact gen_correct_partial_msg. Qed.
+Print Assumptions C04_gen_correct_partial_msg.
+
 (* a context for statements without calls exists for every template data, so the stages above lose nothing *)
-Theorem C04_cc_nocalls_ok : forall cf o denv, cn_ok o -> envok denv -> callctx_ok cf o (cc_nocalls denv).
+Theorem C04_cc_nocalls_ok : forall cf o denv, cn_ok o -> o_msgs o = None -> envok denv -> callctx_ok cf o (cc_nocalls denv).
 Proof. exact cc_nocalls_ok. Qed.
 
 (* the context discharged for a whole program p (Model/MiniJSProg.v: templates whose bodies are blocks of the statement
@@ -537,7 +551,7 @@ Print Assumptions C04_js_call_correct.
    (Gen) that function -- header, [opt_data = opt_data || {};] var output = ''; the printed block; return output; } --
          is what visitTemplate emits from the counter cnt name. *)
 Theorem C04_gen_correct_partial_template : forall cf o p cnt,
-  c_oblig cf = [] -> (forall x, c_ij cf = Some x -> core_value x = true) -> r_templates (c_reg cf) = c04_templates p -> cn_ok o ->
+  c_oblig cf = [] -> (forall x, c_ij cf = Some x -> core_value x = true) -> r_templates (c_reg cf) = c04_templates p -> cn_ok o -> o_msgs o = None ->
   forall k name cenv text, c04_tout (c_ij cf) go_print_text p k name cenv = Some text ->
   exists t, c04_find p name = Some t
   /\ (envok cenv -> forall f st cd, (k * c04_D p <= f)%nat -> wok st -> cd <> [] -> (forall q, sc_lookup cd q = cenv q) ->
@@ -571,7 +585,7 @@ Print Assumptions C04_go_render_correct.
 (* non-vacuity: two templates; .main prints $x, calls .item with data="all" and a parameter, then calls itself on the map $next
    while there is one (recursion through data="$e"):
      {template .main}{$x}[{call .item data="all"}{param y: $x + 1 /}{param z}<{$x}{/param}{/call}]{if $next}{call .main data="$next" /}{/if}{/template}
-     {template .item}{$x}-{$y}{$z|noAutoescape}{/template} *)
+     {template .item}{msg desc="d"}{$x}-{$y}{/msg}{$z|noAutoescape}{/template} *)
 Definition ex_main : ctmpl :=
   {| ct_name := b "ns.main"; ct_ns_ae := 1; ct_ae := 0; ct_allopt := false;
      ct_body := BCons (SPrint (CVar (b "x") []) [])
@@ -581,7 +595,8 @@ Definition ex_main : ctmpl :=
                (BCons (SIf (CVar (b "next") []) (BCons (SCall (b "ns.main") (DExpr (CVar (b "next") [])) PNil) BNil) ENone) BNil)))) |}.
 Definition ex_item : ctmpl :=
   {| ct_name := b "ns.item"; ct_ns_ae := 1; ct_ae := 0; ct_allopt := false;
-     ct_body := BCons (SPrint (CVar (b "x") []) []) (BCons (SRaw (b "-")) (BCons (SPrint (CVar (b "y") []) []) (BCons (SPrint (CVar (b "z") []) [PNoAutoescape]) BNil))) |}.
+     ct_body := BCons (SMsg (BCons (SPrint (CVar (b "x") []) []) (BCons (SRaw (b "-")) (BCons (SPrint (CVar (b "y") []) []) BNil))))
+               (BCons (SPrint (CVar (b "z") []) [PNoAutoescape]) BNil) |}.
 Definition ex_prog : list ctmpl := [ex_main; ex_item].
 Definition ex_data : list (bstr * value) := [(b "next", VMap 2 [(b "x", VInt 7)]); (b "x", VInt 4)].
 Definition ex_cf : cfg :=
